@@ -16,7 +16,7 @@ LEVEL = "model_checking"
 ENGINE = "E1 bounded-exhaustive generation-tree explorer"
 RULE = (
     "per resolution: distances {1,thr-1,thr,thr+1,thr+2,3thr+5} x 1024 ordered lane-combination pairs x 4 flag sets of the "
-    "previous note x 4 of the current note, all executed; plus all one-note tracks; distinct = distinct "
+    "previous note x 4 of the current note (plus 5 sustain layouts of the two notes for unflagged pairs), all executed; plus all one-note tracks; distinct = distinct "
     "(resolution, distance, pair, flags) decision; non-trivial = all (each decision is a row of the table)"
 )
 ASSUMPTIONS = [
@@ -74,9 +74,9 @@ def far_rule(fa):
     return "HOPO" if 5 in fa else "STRUM"
 
 
-def pair_text(r, a, fa, b, fb, d):
+def pair_text(r, a, fa, b, fb, d, sa=0, sb=0):
     t = 10 * r + 50
-    body = note_lines(0, (0,)) + note_lines(t, a, fa) + note_lines(t + d, b, fb)
+    body = note_lines(0, (0,)) + note_lines(t, a, fa, sa) + note_lines(t + d, b, fb, sb)
     return mk(res=r, tracks={"ExpertSingle": body})
 
 
@@ -104,40 +104,46 @@ def run_shard(shard, ctx):
             ctx.node()
             if ctx.out_of_time():
                 return
-            body = note_lines(0, (0,))
-            exp = ["STRUM"]
-            t = gap
-            for a in COMBOS:
-                for b in COMBOS:
-                    body += note_lines(t, a, fa)
-                    body += note_lines(t + d, b, fb)
-                    exp.append(far_rule(fa))
-                    exp.append(rule(a, fa, b, fb, d, thr))
-                    t += d + gap
-            text = mk(res=r, tracks={"ExpertSingle": body})
-            got = e1.run_probe(probe, text)
-            ctx.executions += 1
-            ctx.node(1024)
-            ctx.evaluations += len(exp)
-            ctx.nontrivial += 1024  # 1024 distinct decisions (r, d, a, b, fa, fb) by construction
-            for s in exp:
-                ctx.hist[s] += 1
-            if len(ctx.samples) < 1:
-                ctx.samples.append(dict(resolution=r, distance=d, flags_prev=list(fa), flags_cur=list(fb), pairs=1024, first_pair_body=body[:6], expected_head=exp[:5]))
-            if got != exp:
-                _shrink(ctx, r, d, fa, fb, thr, got, exp, text)
+            # sustain layouts (previous note, current note): the rule looks at START ticks only.
+            # The full set is run for unflagged notes, (0, 0) for every flag combination.
+            layouts = [(0, 0)]
+            if fa == () and fb == ():
+                layouts += [(1, 0), (d, 0), (d + thr, 3), (2 * thr + 1, 0), (max(1, d - 1), d + 1)]
+            for sa, sb in layouts:
+                body = note_lines(0, (0,))
+                exp = ["STRUM"]
+                t = gap
+                for a in COMBOS:
+                    for b in COMBOS:
+                        body += note_lines(t, a, fa, sa)
+                        body += note_lines(t + d, b, fb, sb)
+                        exp.append(far_rule(fa))
+                        exp.append(rule(a, fa, b, fb, d, thr))
+                        t += d + gap
+                text = mk(res=r, tracks={"ExpertSingle": body})
+                got = e1.run_probe(probe, text)
+                ctx.executions += 1
+                ctx.node(1024)
+                ctx.evaluations += len(exp)
+                ctx.nontrivial += 1024  # 1024 distinct decisions (r, d, a, b, fa, fb, sustains) by construction
+                for s in exp:
+                    ctx.hist[s] += 1
+                if len(ctx.samples) < 1:
+                    ctx.samples.append(dict(resolution=r, distance=d, flags_prev=list(fa), flags_cur=list(fb), sustains=[sa, sb], pairs=1024, first_pair_body=body[:6], expected_head=exp[:5]))
+                if got != exp:
+                    _shrink(ctx, r, d, fa, fb, thr, got, exp, text, sa, sb)
 
 
-def _shrink(ctx, r, d, fa, fb, thr, got, exp, packed_text):
+def _shrink(ctx, r, d, fa, fb, thr, got, exp, packed_text, sa=0, sb=0):
     if isinstance(got, list) and len(got) == len(exp) and got[0] != "raises":
         k = next(i for i in range(len(exp)) if got[i] != exp[i])
         p = (k - 1) // 2
         a, b = COMBOS[p // 32], COMBOS[p % 32]
-        text = pair_text(r, a, fa, b, fb, d)
+        text = pair_text(r, a, fa, b, fb, d, sa, sb)
         e = ["STRUM", far_rule(fa), rule(a, fa, b, fb, d, thr)]
         g = e1.run_probe(probe, text)
         if g != e:
-            e1.report(ctx, "decision", text, PROBE_SRC, [e], g, "resolution %d threshold %d distance %d: %r flags %r then %r flags %r" % (r, thr, d, a, fa, b, fb))
+            e1.report(ctx, "decision", text, PROBE_SRC, [e], g, "resolution %d threshold %d distance %d: %r flags %r sustain %d then %r flags %r sustain %d" % (r, thr, d, a, fa, sa, b, fb, sb))
             return
     e1.report(ctx, "decision-packed", packed_text, PROBE_SRC, [exp], got, "resolution %d threshold %d distance %d flags %r/%r (only in the packed track of 1024 pairs)" % (r, thr, d, fa, fb))
 
